@@ -69,6 +69,9 @@ fn catalogue() -> Vec<String> {
         "account Assets:Bank\n",
         "account Assets:Bank\n    alias Bank\n    note main account\n",
         "account Assets:銀行 口座\n    ; a comment\n    alias B2\n    ; another\n     ; continued\n    note n1\n    note n2\n",
+        "account Notes\n    note \n    note first\n    note \n    note third\n",
+        "commodity N\n    note \n",
+        "account Sp\n    note   \n    ; \n    ;\n",
         "commodity JPY\n",
         "commodity JPY\n    alias ¥\n    format 1,000 JPY\n",
         "commodity USD\n    ; us dollar\n    note n\n    alias $\n    format 1,000.00 USD\n",
@@ -247,7 +250,7 @@ fn directive(r: &mut Rng) -> String {
             let mut s = format!("account{}{}{}\n", sp1(r), account(r), sp0(r));
             for _ in 0..r.below(4) {
                 match r.below(3) {
-                    0 => s.push_str(&format!("{}note{}{}\n", sp1(r), sp1(r), r.pick(&["a note", "ノート", "n; with semi"]))),
+                    0 => s.push_str(&format!("{}note{}{}\n", sp1(r), sp1(r), r.pick(&["a note", "ノート", "n; with semi", ""]))),
                     1 => s.push_str(&format!("{}alias{}{}\n", sp1(r), sp1(r), account(r))),
                     _ => s.push_str(&format!("{}{}{}\n", sp1(r), r.pick(&[";", "#", "%", "|", "*"]), r.pick(&[" a comment", "tight", " コメント"]))),
                 }
@@ -258,7 +261,7 @@ fn directive(r: &mut Rng) -> String {
             let mut s = format!("commodity{}{}{}\n", sp1(r), commodity(r), sp0(r));
             for _ in 0..r.below(4) {
                 match r.below(4) {
-                    0 => s.push_str(&format!("{}note{}{}\n", sp1(r), sp1(r), r.pick(&["a note", "ノート"]))),
+                    0 => s.push_str(&format!("{}note{}{}\n", sp1(r), sp1(r), r.pick(&["a note", "ノート", ""]))),
                     1 => s.push_str(&format!("{}alias{}{}\n", sp1(r), sp1(r), commodity(r))),
                     2 => s.push_str(&format!("{}format{}{}\n", sp1(r), sp1(r), r.pick(&["1,000.00 USD", "1,000 JPY", "1000.0000 OKANE"]))),
                     _ => s.push_str(&format!("{}{}{}\n", sp1(r), r.pick(&[";", "#", "%", "|", "*"]), r.pick(&[" a comment", "tight"]))),
@@ -279,7 +282,12 @@ fn random_file(r: &mut Rng) -> String {
         s.push_str(&if r.chance(65) { transaction(r) } else { directive(r) });
         for _ in 0..(1 + r.below(2)) { s.push_str(&sp0(r)); s.push('\n'); }
     }
-    match r.below(4) { 0 => s.trim_end_matches(|c| c == '\n' || c == ' ').to_owned(), 1 => s.replace('\n', "\r\n"), _ => s }
+    match r.below(4) { 0 => {
+            // drop trailing empty / whitespace-only lines and the final line ending, but no space that belongs to the last line
+            let mut lines: Vec<&str> = s.split('\n').collect();
+            while lines.last().map(|l| l.trim().is_empty()).unwrap_or(false) { lines.pop(); }
+            lines.join("\n")
+        } 1 => s.replace('\n', "\r\n"), _ => s }
 }
 
 pub fn run(args: &[String]) -> i32 {
